@@ -131,6 +131,10 @@ func ParsePrepareStatementResponse(data []byte) (*PrepareStatementResponse, erro
 	return resp, nil
 }
 
+// fixedLengthFieldsSize is the size of the fixed-length fields read from a column definition:
+// 0x0C marker (1), charset (2), column length (4), type (1), flags (2), decimals (1)
+const fixedLengthFieldsSize = 11
+
 // ParseResultField parses binary field and returns ColumnDescription
 func ParseResultField(packet *Packet, mariaDBExtendedTypeInfo bool) (*ColumnDescription, error) {
 	field := &ColumnDescription{}
@@ -190,19 +194,31 @@ func ParseResultField(packet *Packet, mariaDBExtendedTypeInfo bool) (*ColumnDesc
 	//       int<1> data type: 0x00:type, 0x01: format
 	//       string<lenenc> value
 	if mariaDBExtendedTypeInfo {
+		if pos >= len(packet.data) {
+			return nil, base.ErrMalformPacket
+		}
 		if packet.data[pos] == 0 {
 			// skip length byte
 			pos++
 		} else {
-			num, _, _, err := base.LengthEncodedInt(packet.data[pos:])
+			num, _, n, err := base.LengthEncodedInt(packet.data[pos:])
 			if err != nil {
 				return nil, err
 			}
+			// the extended info (with the bytes of its length) must fit into the packet
+			if num > uint64(len(packet.data)-pos-n) {
+				return nil, base.ErrMalformPacket
+			}
 			// currently we dont need to take a look on extended info, so just grab it as is
-			offset := int(num + 1)
+			offset := int(num) + n
 			field.ExtendedTypeInfo = packet.data[pos : pos+offset]
 			pos += offset
 		}
+	}
+
+	// the fixed-length fields read below must be present
+	if len(packet.data)-pos < fixedLengthFieldsSize {
+		return nil, base.ErrMalformPacket
 	}
 
 	//skip 0x0C constant field
@@ -246,7 +262,7 @@ func ParseResultField(packet *Packet, mariaDBExtendedTypeInfo bool) (*ColumnDesc
 		}
 		pos += n
 
-		if pos+int(field.DefaultValueLength) > len(packet.data) {
+		if field.DefaultValueLength > uint64(len(packet.data)-pos) {
 			log.WithField(logging.FieldKeyEventCode, logging.EventCodeErrorProtocolProcessing).Errorln("Incorrect position, malformed packet")
 			err = base.ErrMalformPacket
 			return nil, err
